@@ -319,6 +319,7 @@ def install(E):
         'Kripke.get_substructure', 'kripke', [('self', 'kripke'), ('V', 'setlike')], ret='kripke',
         requires=lambda c: [('wf', wfK(c.h0, c.self.t))],
         ensures=sub_ens, raises={'RuntimeError': sub_raise},
-        hints={'cuts': {'raises:RuntimeError:only_if': [sub_cut_edges, sub_cut_states],
+        hints={'slice_noraise': r'(raises:RuntimeError:if:ret\d+:cut[12]$|^ensures:(transitions|initial_states|states|labels):ret\d+$)',
+               'cuts': {'raises:RuntimeError:only_if': [sub_cut_edges, sub_cut_states],
                         'raises:RuntimeError:if': [sub_cut_retained_are_given, sub_cut_E_is_induced]}},
  touches={'dd', 'dv', 'sets', 'fld__next', 'fld__labels', 'fld_S0'}, owner='C14'))
